@@ -4,6 +4,7 @@ real JSON logger -> real FillCache -> Get), Targets.tla MacRight / NoMacIsError 
 import os
 import vf
 from checks import targets_common as tc
+from checks import wire_tier as wt
 
 LEVEL = "model_checking"
 LEVEL_TEXT = ("TLC checks ArpCache for every cache file of <= 3 lines over 3 addresses x 3 MACs (duplicates included), every pair of request destinations, gateway "
@@ -44,6 +45,11 @@ def run(ctx):
     t2 = tc.run_parallel(ctx, "^TestVfTargets$", sa, "c11a", procs=8)
     n2, _ = vf.validate_runs(ctx, "TargetsTrace", t2, cfg="TargetsTrace_A2", keyfn=tc.target_key, label="resolver and fillers", timeout=3000)
     ctx.count(0, [("run", i) for i in range(n1 + n2)])
+    # socket-level tier: the output of `sx arp --json` (a superseded line included) piped into `sx tcp` as its ARP cache, no gateway MAC:
+    # destination MACs read off the wire; destinations without an entry are not probed
+    for focus in ("source", "coverage"):
+        n3, rej = wt.run_wire(ctx, select=lambda s: s["name"] == "tcp-from-arp-output", label="c11w" + focus[0], focus=focus)
+        wt.report(ctx, "C11", rej, names=lambda b: b["name"] == "tcp-from-arp-output")
     for r0 in vf.split_runs(events)[:1]:
         ctx.sample(r0[:12])
     for r0 in vf.split_runs(vf.read_ndjson(t2))[:2]:
